@@ -1,6 +1,7 @@
 import CnvVerif.Driver.Json
 import CnvVerif.Driver.Center
 import CnvVerif.Model.SexExt
+import CnvVerif.Driver.SexExt5
 open Lean
 namespace CnvVerif.Drv
 
@@ -102,6 +103,6 @@ def handleSexExt (op : String) (inp : Json) (impl : Option Json) : R (Option Jso
                                    ("tables", arrJ (used.map fun (_, tb, _) => moodJ tb)),
                                    ("deg_mismatch", arrJ degMismatch)]),
                      ("slack", ratJ (absR (score - 1))), ("spec", spec)]))
-  | _ => pure none
+  | _ => handleSexExt5 op inp impl   -- round 5: the glue ops (Driver/SexExt5.lean)
 
 end CnvVerif.Drv
